@@ -444,8 +444,12 @@ def transform_cases(fn):
     out = []
     for val, conds in A.result_cases(fn["body"]):
         sub = {}
+        named = {A.binding_name(l_["pat"]): A.unparse(l_["init"]).replace(" ", "") for l_ in A.find(fn["body"], "Let") if l_.get("init") is not None and A.binding_name(l_["pat"])}
         for c in conds:
             t = c.replace(" ", "")
+            bare = t.lstrip("!").strip("()")
+            if bare in named:  # a guard that was given a name
+                t = ("!" if t.startswith("!") else "") + named[bare]
             neg = t.startswith("!")
             atoms = t.lstrip("!").strip("()").split("&&")
             if neg:
